@@ -1,7 +1,8 @@
 from .. Error import RINGReaderError
 from .. RDkitWrapper.ReactionQuery import ReactionQuery, BondForm, \
     BondIncrease, BondDecrease, BondModify, AtomTypeModify, BondBreak,\
-    RadicalIncrease, RadicalDecrease, ChargeIncrease, ChargeDecrease
+    RadicalModify, RadicalIncrease, RadicalDecrease, ChargeIncrease, \
+    ChargeDecrease
 from .MolQueryRead import MolQueryReader
 from rdkit import Chem
 
@@ -304,9 +305,7 @@ class ReactionQueryReader(object):
             raise RINGReaderError("RadicalModify: Number of radical",
                                   "electrons cannot be below 0")
         self.electronbalance[idx] -= radical - atom.GetNumRadicalElectrons()
-        reactionquery.transformations.append(AtomTypeModify(idx,
-                                                            radical,
-                                                            0, 0))
+        reactionquery.transformations.append(RadicalModify(idx, radical))
 
     def ReadRadicalIncrease(self, tree, reactionquery):
         assert tree[0][0] == 'AtomLabel'
